@@ -45,9 +45,10 @@ Definition c13_spec_symbols := spec_symbols.
 Definition c13_spec_baseband (invert : bool) (symbols : list Z) :=
   spec_baseband rrc_taps_num rrc_den_log2 10 (if invert then (-7168)%Z else 7168%Z) symbols.
 Definition c13_bits_bytes := bits_bytes.
+Definition c13_bytes_symbols := bytes_symbols.
 
 Extraction "c13_model.ml"
-  c13_send_lsf c13_make_data_frame c13_make_lich_segment c13_send_audio_frame c13_bert_iteration
+  c13_bytes_symbols c13_send_lsf c13_make_data_frame c13_make_lich_segment c13_send_audio_frame c13_bert_iteration
   c13_calls c13_render_bitstream c13_render_baseband c13_int16_bytes
   c13_flag_per_instantiation c13_flag_audio_zero_init
   c13_spec_lsf c13_spec_lsf_frame c13_spec_lich c13_spec_stream_payload c13_spec_stream_frame
